@@ -100,6 +100,15 @@ def util_oracle(res, cux, s):
         except Exception as e:
             res.violation('split_complex_pt:raises:' + type(e).__name__, {'op': ['split', ' '.join(seq0), s]}, type(e).__name__, 'components, twice')
         cu.fresh_results(res, 'split_complex_db', lambda: cux.split_complex_db(list(seq0), list(sst0)), {'op': ['split', ' '.join(seq0), s]})
+        # join=True is the joined list form - also when two components are IDENTICAL (all positions labelled alike)
+        same = ['+' if x == '+' else 'a' for x in seq0]
+        try:
+            pl = [(''.join(a), ''.join(b)) for a, b in cux.split_complex_db(list(same), list(sst0))]
+            pj = [(a, b) for a, b in cux.split_complex_db(list(same), list(sst0), join=True)]
+            if pj != pl or len(pl) != len(comps):
+                res.violation('split_complex_db:join-form', {'op': ['split', ' '.join(same), s]}, 'join=True: %r' % (pj,), 'the joined list form %r (%d components)' % (pl, len(comps)))
+        except Exception as e:
+            res.violation('split_complex_db:join-form:raises:' + type(e).__name__, {'op': ['split', ' '.join(same), s]}, type(e).__name__, 'components')
         cu.same_for_forms(res, 'split_complex_db', [('structure as list', lambda: cux.split_complex_db(list(seq0), list(sst0))),
                                                     ('structure as str', lambda: cux.split_complex_db(list(seq0), s))], {'op': ['split', ' '.join(seq0), s]})
         cu.same_for_forms(res, 'split_complex_pt', [('lists', lambda: cux.split_complex_pt(cux.make_strand_table(list(seq0)), cux.make_pair_table(s))),
